@@ -37,35 +37,59 @@ func buildReplayBinary(repo, hdir, pkgDir string) (string, string) {
 	}
 	wd := workDir()
 	ov := map[string]string{}
-	src := filepath.Join(hdir, strings.ReplaceAll(pkgDir, "/", "__"))
-	ents, _ := os.ReadDir(src)
 	pkgName := ""
-	for _, en := range ents {
-		if !strings.HasSuffix(en.Name(), ".go") {
+	// harness files of every package are overlaid (cut-point shims live in them); the
+	// replay test itself is added to the package of this harness only
+	hdirs, _ := os.ReadDir(hdir)
+	for _, hd := range hdirs {
+		if !hd.IsDir() || strings.HasPrefix(hd.Name(), "_") || strings.HasPrefix(hd.Name(), "MOD__") || hd.Name() == "cuts" {
 			continue
 		}
-		real := filepath.Join(src, en.Name())
-		ov[filepath.Join(repo, pkgDir, "zz_verif_"+en.Name())] = real
-		if pkgName == "" {
+		dir := strings.ReplaceAll(hd.Name(), "__", "/")
+		src := filepath.Join(hdir, hd.Name())
+		ents, _ := os.ReadDir(src)
+		name, uses := "", false
+		for _, en := range ents {
+			if !strings.HasSuffix(en.Name(), ".go") {
+				continue
+			}
+			real := filepath.Join(src, en.Name())
+			ov[filepath.Join(repo, dir, "zz_verif_"+en.Name())] = real
 			b, _ := os.ReadFile(real)
-			for _, line := range strings.Split(string(b), "\n") {
-				if strings.HasPrefix(line, "package ") {
-					pkgName = strings.TrimSpace(strings.TrimPrefix(line, "package "))
-					break
+			if strings.Contains(string(b), "verifHarnesses[") {
+				uses = true
+			}
+			if name == "" {
+				for _, line := range strings.Split(string(b), "\n") {
+					if strings.HasPrefix(line, "package ") {
+						name = strings.TrimSpace(strings.TrimPrefix(line, "package "))
+						break
+					}
 				}
 			}
 		}
-	}
-	for _, t := range []struct{ tmpl, out string }{{"rt.go.tmpl", "zz_verif_rt.go"}, {"replay_test.go.tmpl", "zz_verif_replay_test.go"}} {
-		b, err := os.ReadFile(filepath.Join(hdir, "_rt", t.tmpl))
-		if err != nil {
-			replayBins[pkgDir], replayBuildErr[pkgDir] = "", err.Error()
-			return "", err.Error()
+		if dir == pkgDir {
+			pkgName = name
 		}
-		real := filepath.Join(wd, strings.ReplaceAll(pkgDir, "/", "__")+"_"+t.out)
-		os.WriteFile(real, []byte(strings.ReplaceAll(string(b), "PKGNAME", pkgName)), 0o644)
-		ov[filepath.Join(repo, pkgDir, t.out)] = real
+		if !uses {
+			continue
+		}
+		tmpls := []struct{ tmpl, out string }{{"rt.go.tmpl", "zz_verif_rt.go"}}
+		if dir == pkgDir {
+			tmpls = append(tmpls, struct{ tmpl, out string }{"replay_test.go.tmpl", "zz_verif_replay_test.go"})
+		}
+		for _, t := range tmpls {
+			b, err := os.ReadFile(filepath.Join(hdir, "_rt", t.tmpl))
+			if err != nil {
+				replayBins[pkgDir], replayBuildErr[pkgDir] = "", err.Error()
+				return "", err.Error()
+			}
+			real := filepath.Join(wd, strings.ReplaceAll(pkgDir, "/", "__")+"_for_"+strings.ReplaceAll(dir, "/", "__")+"_"+t.out)
+			os.WriteFile(real, []byte(strings.ReplaceAll(string(b), "PKGNAME", name)), 0o644)
+			ov[filepath.Join(repo, dir, t.out)] = real
+		}
 	}
+	_ = pkgName
 	// cut-point files (regenerated from the current sources) and shim files of other packages
 	cuts, cerr := cutFiles(hdir, repo)
 	if cerr != nil {
